@@ -30,6 +30,11 @@ def response_payload(rng, pname, rid, outcome):
         d['error'] = {'code': outcome[1], 'message': outcome[2]}
         if not two:
             d['result'] = None
+    elif kind == 'errval':
+        # loose protocol: any non-null error member is the error, however it looks (0, "", {}, false, a bare code or text)
+        d['error'] = outcome[1]
+        if outcome[2] == 'with_null_result':
+            d['result'] = None
     else:   # malformed response whose id is recoverable
         variant = outcome[1] if len(outcome) > 1 else 0
         if pname == 'v2' and variant == 1:      # well-formed but for the missing version member
@@ -113,6 +118,9 @@ class C01(Prop):
                             expects.append(['reject'])
                         elif outstanding[key] == 'one':
                             outcome = rng.choice([['res', rng.choice([None, 5, 'ok', [1]])], ['err', 7, 'bad'], ['malformed', rng.randrange(3)]])
+                            if pname == 'loose' and rng.random() < 0.3:
+                                outcome = ['errval', rng.choice([0, '', {}, False, [], 0.0, 7, 'boom', {'code': 3}]),
+                                           rng.choice(['with_null_result', 'alone'])]
                             payload = response_payload(rng, pname, enc_id(rng, key[0]), outcome)
                             ops.append(['receive', list(json.dumps(payload).encode())])
                             expects.append(['complete', list(key), [outcome]])
@@ -142,8 +150,8 @@ class C01(Prop):
                         ops.append(['receive', list(json.dumps(payload).encode())])
                         expects.append(['reject'])
                     else:
-                        rid = rng.choice([9999, -1, '0', '1', None, 1.5, 2 ** 70])
-                        payload = response_payload(rng, pname, rid, ['res', 1])
+                        rid = rng.choice([9999, -1, '0', '1', None, 1.5, 2 ** 70, [1], {'a': 1}, [], [[2]]])
+                        payload = response_payload(rng, pname, rid, rng.choice([['res', 1], ['res', 1], ['malformed', rng.randrange(3)]]))
                         ops.append(['receive', list(json.dumps(payload).encode())])
                         expects.append(['reject'])
                     first_rx = False
@@ -185,7 +193,12 @@ class C01(Prop):
                     return 'one response completed several awaitables'
                 want = [['protoerr', -32600] if x[0] == 'malformed' else x for x in ex[2]]
                 got = [v[:1] + [jv.from_plain(z) for z in v[1:]] for v in o['vals']]
-                if got != want:
+                if len(want) == 1 and want[0][0] == 'errval':
+                    # the peer sent an error: the awaitable must not complete with a result (the exact code and
+                    # message of the best-effort reading are compared with the model)
+                    if got[0][0] != 'err':
+                        return 'the peer answered with an error member, the awaitable did not complete with an error'
+                elif got != want:
                     return 'the awaitable did not complete with the outcome sent under its id (batch: in member order)'
                 if o['pending'] != pend - 1:
                     return 'completing one request disturbed the table of outstanding requests'
